@@ -1165,20 +1165,24 @@ class SOEnumCol(SOCol):
             return "ENUM(%s)" % ', '.join(
                 [sqlbuilder.sqlrepr(v, 'mysql') for v in self.enumValues])
 
-    def _postgresType(self):
+    def _checkType(self, db):
         length = max(map(self._getlength, self.enumValues))
         enumValues = ', '.join(
-            [sqlbuilder.sqlrepr(v, 'postgres') for v in self.enumValues])
+            [sqlbuilder.sqlrepr(v, db) for v in self.enumValues])
         checkConstraint = "CHECK (%s in (%s))" % (self.dbName, enumValues)
         return "VARCHAR(%i) %s" % (length, checkConstraint)
 
-    _sqliteType = _postgresType
+    def _postgresType(self):
+        return self._checkType('postgres')
+
+    def _sqliteType(self):
+        return self._checkType('sqlite')
 
     def _sybaseType(self):
-        return self._postgresType()
+        return self._checkType('sybase')
 
     def _mssqlType(self):
-        return self._postgresType()
+        return self._checkType('mssql')
 
     def _firebirdType(self):
         length = max(map(self._getlength, self.enumValues))
